@@ -9,6 +9,32 @@ def gen(repo):
     rel = 'datamatrix/functional.py'
     tree = load(repo, rel)
     out = [HEADER % rel, 'From Coq Require Import ZArith List Bool.\nOpen Scope Z_scope.\n']
+    # what `getargspec` is: the first statement of the module-level try must be
+    # `from inspect import getfullargspec as getargspec` (its .args lists the positional parameters only: no
+    # keyword-only parameters, no *args / **kwargs), with the Python 2 fallback `from inspect import getargspec`
+    imports = [node for node in tree.body if isinstance(node, ast.Try) and node.body
+               and isinstance(node.body[0], ast.ImportFrom) and node.body[0].module == 'inspect']
+    if len(imports) != 1 or len(imports[0].body) != 1 or len(imports[0].handlers) != 1 \
+            or len(imports[0].handlers[0].body) != 1:
+        raise TranslationError('functional.py: the try/except import of getargspec from inspect changed')
+    expect_same(imports[0].body[0], 'from inspect import getfullargspec as getargspec', 'what counts the parameters')
+    expect_same(imports[0].handlers[0].body[0], 'from inspect import getargspec', 'Python 2 fallback')
+    for node in ast.walk(tree):
+        if isinstance(node, (ast.Assign, ast.AugAssign, ast.AnnAssign, ast.FunctionDef, ast.ClassDef, ast.Import,
+                             ast.ImportFrom, ast.Global)) and node not in (imports[0].body[0], imports[0].handlers[0].body[0]):
+            names = []
+            if isinstance(node, ast.Assign):
+                names = [t.id for tg in node.targets for t in ast.walk(tg) if isinstance(t, ast.Name)]
+            elif isinstance(node, (ast.AugAssign, ast.AnnAssign)):
+                names = [t.id for t in ast.walk(node.target) if isinstance(t, ast.Name)]
+            elif isinstance(node, (ast.FunctionDef, ast.ClassDef)):
+                names = [node.name]
+            elif isinstance(node, ast.Global):
+                names = list(node.names)
+            else:
+                names = [(a.asname or a.name) for a in node.names]
+            if 'getargspec' in names:
+                raise TranslationError('functional.py: getargspec is bound a second time')
     # _count_unbound_arguments: nbound = 0; while isinstance(fnc, partial): nbound += E1; fnc = fnc.func; return E2
     fn = find_function(tree, '_count_unbound_arguments')
     body = body_nodoc(fn)
